@@ -76,6 +76,7 @@ def sinst : STy → SVal → Bool
   | .typeOrTypeName, .type => true
   | .typeOrTypeName, .str s => typeName s
   | .attributes, .hashOf ks => ks.all memberName          -- Hash[MemberName, NotUndef]
+  | .parameters, .hashOf ks => ks.all memberName          -- Hash[MemberName, NotUndef]
   | .constants, .hashOf ks => ks.all memberName           -- Hash[MemberName, Any]
   | .equality, .str s => memberName s                     -- Variant[MemberName, Array[MemberName]]
   | .equality, .strs l => l.all memberName
@@ -98,6 +99,7 @@ def structInst (ms : List Member) (h : List (String × SVal)) : Bool := matchCou
 def defHash (name : Option String) (parentKey : Bool) (d : Def) : List (String × SVal) :=
   (match name with | some n => [("name", SVal.str n)] | none => []) ++
   (if parentKey then [("parent", SVal.type)] else []) ++
+  (if d.params.isEmpty then [] else [("type_parameters", SVal.hashOf (d.params.map (·.1)))]) ++
   (if d.attrs.isEmpty then [] else [("attributes", SVal.hashOf (d.attrs.map (·.name)))]) ++
   (if d.constants.isEmpty then [] else [("constants", SVal.hashOf (d.constants.map (·.1)))]) ++
   (match d.equality with
